@@ -177,10 +177,28 @@ def check_property(prop, tier='quick', seed=0, only=None, verbose=False):
     native = {}
     native_err = None
     if items:
+        # native runs of different contracts are independent: spread the contracts over a few driver processes (a change that
+        # makes calls hang then costs one time limit per contract in parallel, not in sequence)
+        buckets = {}
+        order = []
+        for it in items:
+            if it['contract'] not in buckets:
+                order.append(it['contract'])
+                buckets[it['contract']] = []
+            buckets[it['contract']].append(it)
+        nb = max(1, min(8, len(order)))
+        parts = [[] for _ in range(nb)]
+        for i, cn in enumerate(order):
+            parts[i % nb].extend(buckets[cn])
+
+        def _native(part):
+            return part, native_run(prop, part)
         try:
-            runs = native_run(prop, items)
-            for it, run in zip(items, runs):
-                native[(it['contract'], it['tag'])] = run
+            from concurrent.futures import ThreadPoolExecutor
+            with ThreadPoolExecutor(max_workers=nb) as ex:
+                for part, runs in ex.map(_native, [p for p in parts if p]):
+                    for it, run in zip(part, runs):
+                        native[(it['contract'], it['tag'])] = run
         except Exception as e:
             native_err = str(e)
 
